@@ -400,7 +400,8 @@ def gen_strings(ctx, progs):
     for _ in range(ctx.n(700, 12000)):
         k = rng.randrange(1, 14)
         sep = rng.choice(["", "", " ", " "])
-        add("soup", sep.join(rng.choice(FRAGS) for _ in range(k)))
+        s = sep.join(rng.choice(FRAGS) for _ in range(k))
+        add("soup", sprinkle_unicode(rng, s) if rng.random() < 0.25 else s)
     alphabet = "()[]{}\\'\"#;:,.=+-*<>!?`_ \n\tabcxyzBFRefijqr0123456789×∧∨🐉é"
     for _ in range(ctx.n(400, 8000)):
         p = rng.choice(progs)
@@ -422,7 +423,8 @@ def gen_strings(ctx, progs):
             else:
                 j = rng.randrange(0, len(cs) + 1)
                 cs[i:i] = cs[min(i, j):max(i, j)][:40]
-        add("mutant", "".join(cs))
+        s = "".join(cs)
+        add("mutant", sprinkle_unicode(rng, s) if rng.random() < 0.25 else s)
     # token-level edits and truncations of real programs (the parser indexes its token vector by hand:
     # every prefix ending at a token boundary probes an end-of-input path)
     tokre = re.compile(r"\s+|[A-Za-z_][A-Za-z0-9_']*|\d+(?:\.\d+)?|'[^']*'|\"[^\"]*\"|.", re.S)
@@ -452,7 +454,12 @@ def gen_strings(ctx, progs):
                 toks[i] = rng.choice(FRAGS)
             else:
                 toks.insert(i, rng.choice(FRAGS))
-        add("token-mutant", "".join(toks))
+        s = "".join(toks)
+        add("token-mutant", sprinkle_unicode(rng, s) if rng.random() < 0.25 else s)
+    # non-ASCII numerics / letters / marks glued to ASCII digit runs, radix digits, exponents, identifiers:
+    # char::is_digit(10) and to_digit are ASCII-only, is_numeric / is_alphanumeric are not - the boundary must hold
+    for s in unicode_digit_texts(rng, ctx.n(300, 4000)):
+        add("digit-unicode", s)
     # every expression form in every pattern / lvalue position (to_lvalue and friends)
     pats = ["x", "_", "1", "-1", "1.5", "2q", "'s'", "B'b'", "F'{x}'", "null", "a[1]", "a[1:2]", "a[:]", "a.b", "a::b", "f(x)", "f()", "(a, b)", "(a,)", "()", "[a, b]",
             "[a, ...b]", "...a", "...", "a, b", "a, ...b, c", "a: int", "a: int, b", "(a: int)", "a: (b: c)", "1 + x", "x + 1", "a b", "a `f` b", "x!", "x ! 1", "!x", "{a: b}", "{}", "{a}",
@@ -489,6 +496,42 @@ def gen_strings(ctx, progs):
               "f " * 200 + "1", "x = " * 50 + "1", "a, " * 100 + "b = 1", "1" + " and 1" * 200, "a" + ".b" * 200, "! " * 200 + "1"]:
         add("stress", s)
     return out
+
+
+UNUM = (["\u0660", "\u0663", "\u0669", "\u0966", "\u096f", "\u06f5", "\u09e7", "\u0e53", "\uff10", "\uff19", "\U0001d7ce", "\U0001d7ff", "\U0001e950",   # Nd of other scripts
+         "\u00b2", "\u00b3", "\u00b9", "\u00bd", "\u00bc", "\u00be", "\u2070", "\u2079", "\u2080", "\u2460", "\u2473", "\u2150", "\u3289", "\U00010107",  # No
+         "\u2167", "\u2160", "\u217f", "\u3007", "\u3021", "\u16ee", "\U00010140",                                                           # Nl
+         "\u00e9", "\u03bb", "\u4e09", "\u05d0", "\u00aa", "\u02b0", "\U0001d7cd",                                                          # letters
+         "\u0301", "\u20e3", "\u0963", "\ufe0f", "\u200d", "\u00ad"])                                                                       # marks / format chars
+UTEMPL = ["{d}{u}", "{d}{u}{d}", "{u}{d}", "{d}{u}{u}", "{d}{u}q", "{d}{u}Q", "{d}{u}i", "{d}{u}f", "{d}{u}e5", "{d}{u}.5", "{d}{u}r1", "{d}{u}x", "{d} {u}", "{d}{u} + 1", "({d}{u})",
+          "[{d}{u}, 2]", "x := {d}{u}", "16rF{u}", "16r{u}F", "36rz{u}", "10r{d}{u}", "2r1{u}0", "64rA{u}", "64r{u}", "0x{u}", "0xf{u}", "0b1{u}", "0o7{u}", "0X{u}1",
+          "{d}e{u}", "{d}e-{u}", "{d}e+{u}", "{d}e5{u}", "{d}E+5{u}", "{d}.{u}", "{d}.5{u}", "{d}.5e{u}", "{d}.5e5{u}", "{d}.{u}5", "{d}.5{u}i", "{d}f{u}", "{d}q{u}", "{d}i{u}",
+          "x{u}", "x{d}{u}", "x{u}{d}", "{u}x", "_{u}", "x'{u}", "B{u}", "F{u}'a'", "R{u}", "B[{d}{u}]", "F'{{{d}{u}}}'", "F'{{x #{d}{u}}}'", "'{d}{u}'", "\"\\x4{u}\"", "'\\u{{4{u}}}'",
+          "'\\u4{u}'", "#{d}{u}", "#({d}{u})", "a[{d}{u}]", "a[{d}{u}:{u}]", "f({d}{u})", "{d}{u}!", "\\x{u} -> {d}{u}", "__internal_{u}", "\U0001f409{u}", "\U0001f409{d}{u}"]
+
+
+def unicode_digit_texts(rng, n_random):
+    out = []
+    for u in UNUM:                       # deterministic part: every character in the bare positions
+        for tpl in UTEMPL[:12]:
+            out.append(tpl.format(d="7", u=u))
+    for tpl in UTEMPL:                   # every template with a digit of another script, a No and a letter
+        for u in ("\u0663", "\u00b2", "\u00bd", "\u2167", "\u2460", "\u03bb", "\u0301"):
+            out.append(tpl.format(d="12", u=u))
+    for _ in range(n_random):
+        d = str(rng.randrange(0, 10 ** rng.randrange(1, 6)))
+        u = "".join(rng.choice(UNUM) for _ in range(rng.choice([1, 1, 1, 2, 3])))
+        out.append(rng.choice(UTEMPL).format(d=d, u=u))
+    return out
+
+
+def sprinkle_unicode(rng, s):
+    """after an ASCII digit run of s, insert a non-ASCII numeric / letter / mark"""
+    runs = [m.end() for m in re.finditer(r"[0-9]+", s)]
+    if not runs:
+        return s
+    i = rng.choice(runs)
+    return s[:i] + rng.choice(UNUM) + s[i:]
 
 
 def nest_measure(s):
